@@ -120,6 +120,19 @@ impl MecabModel {
     }
 }
 
+/// Feature rows with 12 columns (UniDic-like): columns 10 and 11 are referenced by two-digit
+/// template indices.
+fn gen_wide_id_feats(rng: &mut Rng) -> String {
+    let mut cols: Vec<String> = vec![format!("名{}", rng.below(3))];
+    for c in 1..12 {
+        cols.push(match rng.below(5) {
+            0 => "*".to_string(),
+            _ => format!("c{c}v{}", rng.below(2)),
+        });
+    }
+    cols.join(",")
+}
+
 fn gen_id_feats(rng: &mut Rng) -> String {
     let a = format!("名{}", rng.below(3));
     let b = match rng.below(4) {
@@ -203,7 +216,15 @@ impl Scenario for MecabScenario {
         let n_t = 1 + rng.usize(6);
         let mut idx: Vec<usize> = (0..pool.len()).collect();
         rng.shuffle(&mut idx);
-        let chosen: Vec<&str> = idx.iter().take(n_t).map(|&i| pool[i]).collect();
+        let mut chosen: Vec<&str> = idx.iter().take(n_t).map(|&i| pool[i]).collect();
+        let wide = rng.chance(1, 5);
+        if wide {
+            let wide_pool = ["W0:%L[10]/%R[11]", "W1:%L?[11]/%R[10]", "%L[0],%L[10]/%R?[10]", "W3:%L[1]/%R[10],%R[0]"];
+            let k = 1 + rng.usize(3);
+            for t in wide_pool.iter().take(k) {
+                chosen.push(t);
+            }
+        }
         for t in &chosen {
             fd.push_str(&format!("BIGRAM {t}\n"));
         }
@@ -215,7 +236,11 @@ impl Scenario for MecabScenario {
         let table = |rng: &mut Rng, n: usize| -> Vec<String> {
             let mut v = vec!["0 BOS/EOS,*,*".to_string()];
             for i in 1..n {
-                v.push(format!("{i} {}", gen_id_feats(rng)));
+                if wide {
+                    v.push(format!("{i} {}", gen_wide_id_feats(rng)));
+                } else {
+                    v.push(format!("{i} {}", gen_id_feats(rng)));
+                }
             }
             v
         };
